@@ -154,6 +154,19 @@ def gen_spec(rng, feat):
                 return {"times": [str(t) for t in tt], "values": [str(base + dy(rng, 0, 2)) for _ in tt]}
             b[v] = [one(-1), one(+1)]
         spec["bounds"] = b
+        # a second source of (scalar) bounds for some variables: the intersection applies
+        b2 = {}
+        for v in list(b):
+            lo, hi = b[v]
+            if isinstance(lo, dict) or isinstance(hi, dict) or rng.random() < 0.6:
+                continue
+            b2[v] = [None if rng.random() < 0.3 else str(-abs(dy(rng, 1, 9))), None if rng.random() < 0.3 else str(abs(dy(rng, 1, 9)))]
+        comps = [v for v in b if "#" in v]
+        if comps and rng.random() < 0.7:
+            for v in [x for x in pvs if "#" in x]:
+                b2[v] = [str(-abs(dy(rng, 1, 9))), str(abs(dy(rng, 1, 9)))]
+        if b2:
+            spec["bounds2"] = b2
     elif feat.get("pvars"):
         spec.setdefault("bounds", {})
     if feat.get("history"):
@@ -174,6 +187,8 @@ def gen_spec(rng, feat):
                     vals[-1] = "nan"
                 if v in states and len(vals) > 1 and rng.random() < 0.15:
                     vals[-2] = "nan"
+                if len(vals) > 2 and rng.random() < 0.25:
+                    vals[0] = "nan"             # a gap further back: the last two points still give the slope
                 h[v] = {"times": [str(t) for t in ht], "values": vals}
             hs.append(h)
         spec["history"] = hs
@@ -320,6 +335,22 @@ def gbspec(b, m=None):
 MODES = {0: "Linear", 1: "Forward", 2: "Backward"}
 
 
+def effective_bounds(spec):
+    """bounds after intersecting the two (scalar) sources"""
+    b = {k: list(v) for k, v in spec.get("bounds", {}).items()}
+    for v, (lo2, hi2) in spec.get("bounds2", {}).items():
+        lo, hi = b.get(v, [None, None])
+
+        def val(x, dflt):
+            return dflt if x is None or str(x) in ("inf", "-inf") else F(x)
+        los = [val(x, None) for x in (lo, lo2)]
+        his = [val(x, None) for x in (hi, hi2)]
+        los = [x for x in los if x is not None]
+        his = [x for x in his if x is not None]
+        b[v] = [str(max(los)) if los else None, str(min(his)) if his else None]
+    return b
+
+
 def problem_term(spec):
     states, algs, ctls = spec.get("states", []), spec.get("algebraics", []), spec.get("controls", [])
     coll = states + algs + ctls
@@ -329,7 +360,7 @@ def problem_term(spec):
     vt = spec.get("var_times", {})
     noms = spec.get("nominals", {})
     q = lambda x: gq(fx(F(x)))  # noqa: E731
-    bounds = spec.get("bounds", {})
+    bounds = effective_bounds(spec)
     hist = spec.get("history", [{}] * E)
 
     def ghist(h):
